@@ -80,14 +80,15 @@ Use(h) ==
   /\ nops' = nops + 1
   /\ UNCHANGED <<counter, issued, valid, hasObj, closeCnt, terrCnt, ctxDone, openAtEnd, phase>>
 
-(* CLOSE *)
-Close(h) ==
+(* CLOSE.  objFails: the object's own Close reports an error (a handler's reader/writer/lister may); the reply is
+   then a failure status, but the handle has left the table and the object has been closed all the same *)
+Close(h, objFails) ==
   /\ Serving
   /\ IF h \in valid
        THEN /\ valid' = IF CloseDeletes THEN valid \ {h} ELSE valid
             /\ closeCnt' = IF h \in hasObj THEN [closeCnt EXCEPT ![h] = @ + 1] ELSE closeCnt
             /\ ctxDone' = [ctxDone EXCEPT ![h] = TRUE]
-            /\ last' = "ok"
+            /\ last' = IF objFails /\ h \in hasObj THEN "fail" ELSE "ok"
        ELSE /\ UNCHANGED <<valid, closeCnt, ctxDone>>
             /\ last' = "fail"
   /\ nops' = nops + 1
@@ -116,7 +117,7 @@ Done == phase = "returned" /\ UNCHANGED vars
 
 Next ==
   \/ OpenOk \/ OpenFail(TRUE) \/ OpenFail(FALSE)
-  \/ \E h \in Handle : Use(h) \/ Close(h)
+  \/ \E h \in Handle : Use(h) \/ Close(h, FALSE) \/ Close(h, TRUE)
   \/ ConnEnd \/ Sweep \/ Done
 
 Spec == Init /\ [][Next]_vars
